@@ -1,0 +1,17 @@
+//go:build verif
+
+// Contracts for package cli, checked by /verif/govc (comment-only file).
+package cli
+
+// ---- C15: every package load sees the hardened environment
+//@ func interface PackageLoader.Load
+//@   requires [C15.site] cfg != nil && hardened(cfg.Env)
+//@   noframe
+
+//@ func (RealPackageLoader).Load
+//@   requires [C15.site] cfg != nil && hardened(cfg.Env)
+//@   noframe
+
+//@ func loadPackagesWithDeps
+//@   noframe
+//@   ensures [C15.site] true
